@@ -4,6 +4,7 @@ construction), member-state generators, policies for shipped configurations.
 """
 from . import boot  # noqa: F401
 import copy
+import functools
 
 from gym_gridverse.action import Action
 from gym_gridverse.agent import Agent
@@ -207,12 +208,42 @@ class Composition:
         return state, cat
 
     def build(self, reset_state_fn):
-        transition = compose.build('transition', {'name': 'chain', 'transition_functions': self.transitions})
+        wrap = getattr(self, 'wrap_parts', None)
+        if wrap:
+            # chain members as a user would write them: plain callables that pass every keyword through (a decorator
+            # without functools.wraps, a lambda with **kwargs, a callable object)
+            from gym_gridverse.envs import transition_functions as _tf
+            parts = [wrap_part(compose.build('transition', t), wrap, i) for i, t in enumerate(self.transitions)]
+            transition = functools.partial(_tf.chain, transition_functions=parts)
+        else:
+            transition = compose.build('transition', {'name': 'chain', 'transition_functions': self.transitions})
         reward = compose.build('reward', {'name': 'reduce_sum', 'reward_functions': self.rewards})
         terminating = compose.build('terminating', self.terminating)
         observation = compose.build('observation', self.observation)
         return compose.assemble(self.shape, self.types, self.colors, self.actions, transition, reward,
                                 terminating, observation, self.area, reset_state_fn)
+
+
+class _CallablePart:
+    def __init__(self, fn):
+        self.fn = fn
+
+    def __call__(self, *args, **kwargs):
+        return self.fn(*args, **kwargs)
+
+
+def wrap_part(fn, style, i):
+    """the same transition function behind a signature that does not name its parameters"""
+    k = (style + i) % 4
+    if k == 0:
+        return fn
+    if k == 1:
+        return lambda state, action, **kwargs: fn(state, action, **kwargs)
+    if k == 2:
+        def passthrough(*args, **kwargs):
+            return fn(*args, **kwargs)
+        return passthrough
+    return _CallablePart(fn)
 
 
 def _contains_type(obj, T):
